@@ -237,8 +237,15 @@ class Exec(Interp):
 
     def fview(self, st, v):
         """a float value seen through what the state knows about its id (not NaN)"""
-        if v[0] == 'float' and v[3] and len(v) > 4 and v[4] in st.fnn:
-            return ('float', v[1], v[2], False, v[4])
+        if v[0] == 'float' and len(v) > 4:
+            lo, hi, nan = v[1], v[2], v[3]
+            if v[4] in st.fb:
+                b = st.fb[v[4]]
+                lo, hi, nan = max(lo, b[0]), min(hi, b[1]), False
+            elif nan and v[4] in st.fnn:
+                nan = False
+            if (lo, hi, nan) != (v[1], v[2], v[3]):
+                return ('float', lo, hi, nan, v[4])
         return v
 
     def rvalue(self, st, fr, r):
@@ -471,6 +478,21 @@ class Exec(Interp):
             st.rel.add(('lt', res, y))
 
     def float_bin(self, st, op, a, b):
+        if op in ('Eq', 'Ne', 'Lt', 'Le', 'Gt', 'Ge') and a[0] == 'float' and b[0] == 'float':
+            # comparison of an identified float with a constant: remember it so that a branch can refine the bounds
+            fc = None
+            if len(a) > 4 and not b[3] and b[1] == b[2]:
+                fc = ('fcmp', op, a[4], b[1])
+            elif len(b) > 4 and not a[3] and a[1] == a[2]:
+                fc = ('fcmp', {'Lt': 'Gt', 'Le': 'Ge', 'Gt': 'Lt', 'Ge': 'Le', 'Eq': 'Eq', 'Ne': 'Ne'}[op], b[4], a[1])
+            if fc is not None:
+                r0 = self.float_bin_plain(st, op, a, b)
+                if st.bv.get(r0[1]) is None:
+                    self.idef[r0[1]] = fc
+                return r0
+        return self.float_bin_plain(st, op, a, b)
+
+    def float_bin_plain(self, st, op, a, b):
         if op in ('Eq', 'Ne', 'Lt', 'Le', 'Gt', 'Ge'):
             if a[0] == 'float' and b[0] == 'float' and not a[3] and not b[3]:
                 if op == 'Lt' and a[2] < b[1]:
@@ -566,6 +588,34 @@ class Exec(Interp):
             elif base == 'Add':
                 st.rel.add(('sumle', x, y, th))
             self.note_rel(st, base, res, x, y)
+        elif d[0] == 'fcmp':
+            _, op, fid, c = d
+            if not truth:
+                if fid not in st.fnn and fid not in st.fb:
+                    return          # the comparison may be false because the value is NaN
+                op = {'Lt': 'Ge', 'Le': 'Gt', 'Gt': 'Le', 'Ge': 'Lt', 'Eq': 'Ne', 'Ne': 'Eq'}[op]
+            lo, hi = st.fb.get(fid, (-INF, INF))
+            if op == 'Gt':
+                lo = max(lo, math.nextafter(c, INF))
+            elif op == 'Ge':
+                lo = max(lo, c)
+            elif op == 'Lt':
+                hi = min(hi, math.nextafter(c, -INF))
+            elif op == 'Le':
+                hi = min(hi, c)
+            elif op == 'Eq':
+                lo, hi = max(lo, c), min(hi, c)
+            if lo > hi:
+                raise Infeasible()
+            if op != 'Ne':
+                st.fb[fid] = (lo, hi)
+        elif d[0] == 'frange':
+            if truth:
+                lo, hi = st.fb.get(d[1], (-INF, INF))
+                lo, hi = max(lo, d[2]), min(hi, d[3])
+                if lo > hi:
+                    raise Infeasible()
+                st.fb[d[1]] = (lo, hi)
         elif d[0] == 'isnan':
             if truth is False:
                 st.fnn.add(d[1])
@@ -970,6 +1020,8 @@ class Exec(Interp):
                         return [(st, self.mk_bool(st, True))]
                     if not x[3] and (x[2] < lo[1] or (x[1] > hi[2] if incl else x[1] >= hi[2])):
                         return [(st, self.mk_bool(st, False))]
+                    if len(x) > 4 and lo[1] == lo[2] and hi[1] == hi[2]:
+                        return [(st, self.mk_bool(st, None, ('frange', x[4], lo[1], hi[1] if incl else math.nextafter(hi[1], -INF))))]
             return [(st, self.mk_bool(st))]
         # ---- Try / ? -------------------------------------------------------------------------------------
         if name == 'branch' and tr.endswith('Try'):
